@@ -16,6 +16,14 @@ header entries whose names EQUAL the reserved names (never a substring / prefix 
 R03.6 append-option-reaches-every-writing-path: every normal return of sfile.write opens the SFile itself or re-dispatches with
 the caller's append option passed on.
 
+R03.3g reopened-form-from-stored-header: on the paths of SFile.open that read the stored header, the delimiter / dtype / row
+count kept on the handle and handed to the Recfile constructor do not depend (as data, or through the branch that selects them) on
+any option of the caller: an append with delim=',' to a binary file writes binary rows.
+R03.3h written-header-entry-is-the-writers: in the function that builds the header dict of a new file, an entry of the user's
+header spelled like a reserved entry this module stores itself ('_DELIM', '_DTYPE': what a header read from another record file
+contains) is removed or overwritten on every path (abstract interpretation over {user, clean, unknown} per dict variable, loops
+over literal tables unrolled, constant folding of the key tests), so a binary file never inherits a text file's _DELIM.
+
 R03.1b decides "the C++ constructor demands a dtype for mode m" by constant propagation through Records::Records and the
 helpers it calls (mode = the literal, dtype = NULL, everything else unknown: flat constant lattice joined at merges), so the
 condition may be spelled over the mode string, over action bits derived from it by a helper, with early returns ...; R03.2
@@ -54,7 +62,9 @@ MANIFEST = dict(
          "text handle can be in after Recfile.open, every path of Recfile.write converts the chunk to native byte order before "
          "Records::Write (nothing below Records::Write swaps bytes); (9) on reopening a file, the row count an append adds to, the dtype "
          "a chunk is compared with and the delimiter are taken from the header entries selected by equality with the reserved "
-         "names, for every user header; (10) no normal return of sfile.write loses the caller's append option.",
+         "names, for every user header; (10) no normal return of sfile.write loses the caller's append option; (11) the form "
+         "(delimiter, dtype, row count) of a reopened file is a function of its stored header, never of an option of the call; "
+         "(12) the header dict written to a new file inherits no reserved entry (_DELIM, _DTYPE) from the user's header on any path.",
     note="Not decided: byte-level equality of the concatenation, libc/file-system semantics, numpy dtype comparison "
          "semantics. Trusted: CPython ast, clang 14 AST, networkx dominators, SWIG naming convention, LP64.",
     technique="static analysis: CFG dominance / def-use, path-sensitive symbolic execution with helper inlining over Python ast, "
@@ -68,7 +78,7 @@ BYTE_WRITERS = ("write_header_and_update_offset", "update_row_count", "Write")
 # resolved calls); every other rule of this check is a template rule (vcheck.core.Check.obt)
 SEMANTIC = ('R03.1a', 'R03.1b', 'R03.1c', 'R03.1e', 'R03.2b', 'R03.2c', 'R03.2d', 'R03.2f', 'R03.3d', 'R03.4c', 'R03.5', 'R03.8',
             'R03.6::esutil.sfile.write::append=', 'R03.6::esutil.sfile.write::header-option-reaches-SFile.write',
-            'R03.6::esutil.sfile.write::append-option-reaches-every-writing-path', 'R03.3f',
+            'R03.6::esutil.sfile.write::append-option-reaches-every-writing-path', 'R03.3f', 'R03.3g', 'R03.3h',
             'R03.7::esutil.recfile.Util.Recfile.write::text-chunk-native')
 
 
@@ -107,6 +117,8 @@ def run(chk):
     first_fmts = set()  # printf-style formats that _write_header applies itself to produce the SIZE line of a new file
     r03_3(chk, repo, measures, first_fmts)
     r03_3f(chk, repo, SFile_open)
+    r03_3g(chk, repo, SFile_open)
+    r03_3h(chk, repo, SFile_write, SFile_open)
     r03_4(chk, repo, cfun, ceff, first_fmts)
     r03_5(chk, cfun, ceff)
     r03_6(chk, repo, sf_write, cfun)
@@ -2622,6 +2634,736 @@ def r03_3f(chk, repo, SFile_open):
                   (("; ".join(sorted(set(loose_ends))[:3]) + " -- rule: ") if verdict is None and loose_ends else ""),
                   {"_size": "row count (what an append adds to)", "_dtype": "dtype (what a chunk is compared with)",
                    "_delim": "delimiter (text or binary arm)"}[name], name.upper(), name, neq, len(paths)))
+
+
+# -- R03.3g: the form of a reopened file is a fact of the file ----------------------------------------------------------------
+_FORM_SLOTS = ("self._delim", "self._size", "self._dtype", "self._descr")
+_FORM_KW = ("delim", "dtype", "nrows", "offset")
+
+
+def _names_in(e):
+    return {x.id for x in ast.walk(e) if isinstance(x, ast.Name)} if isinstance(e, ast.AST) else set()
+
+
+def r03_3g(chk, repo, SFile_open):
+    """reopened file (the header is read from the file): delimiter / dtype / row count kept on the handle and handed to the
+    record-file constructor are functions of the stored header alone -- no option of the caller enters them, neither as data
+    nor through the branch that selects them.  (An append that reopens a binary file with delim=',' must write binary rows.)"""
+    key = "esutil.sfile.SFile.open::reopened-form-from-stored-header"
+    try:
+        paths = [st for k, _, st in _PX(repo, stop=("read_header", "close")).run(SFile_open, {}) if k == "return"]
+    except _TooBig:
+        paths = []
+    reopen = []
+    for st in paths:
+        rh = [e for e in st.events if e["kind"] == "call" and e["name"] == "read_header"]
+        rf = [e for e in st.events if e["kind"] == "call" and e["name"] == "Recfile"]
+        if rh and rf and rf[-1]["nev"] > rh[0]["nev"]:
+            reopen.append((st, rf[-1]))
+    if not reopen:
+        chk.ob("R03.3g", key, None, SFile_open.where(),
+               "no path of SFile.open was recognised that reads the stored header and then builds the record-file object")
+        return
+    # what names the file and the mode is not an option about its form
+    naming = set()
+    for st, rf in reopen:
+        for a in rf["args"][:1] + [rf["kw"].get(k) for k in ("mode", "filename", "fname")]:
+            naming |= _names_in(a)
+        naming |= _names_in(st.heap.get("self._filename")) | _names_in(st.heap.get("self._mode"))
+    opts = {p.lstrip("*") for p in SFile_open.params} | {a.arg for a in SFile_open.node.args.kwonlyargs}
+    for extra in (SFile_open.node.args.vararg, SFile_open.node.args.kwarg):
+        if extra is not None:
+            opts.add(extra.arg)
+    opts -= naming | {"self"}
+    pat = re.compile(r"(?<![\w.])(%s)(?!\w)" % "|".join(sorted(map(re.escape, opts)))) if opts else None
+    bad, line, nslots = [], None, 0
+    groups = {}
+    for st, rf in reopen:
+        slots = [(s, st.heap.get(s), None) for s in _FORM_SLOTS if s in st.heap]
+        slots += [("Recfile(%s=)" % k, rf["kw"][k], rf["line"]) for k in _FORM_KW if k in rf["kw"]]
+        nslots += len(slots)
+        for nm, v, ln in slots:
+            used = _names_in(v) & opts
+            if used:
+                if ln is None:
+                    ln = max([e["line"] for e in st.events if e["kind"] == "store" and e["name"] == nm] or [0])
+                bad.append("%s of a reopened file is `%s`: it depends on the caller's option %s" % (nm, norm(v)[:80], sorted(used)))
+                line = line or ln
+        ofacts = [(f[0], f[1], norm(f[2]) if isinstance(f[2], ast.AST) else str(f[2]), f[3]) for f in st.facts
+                  if (_names_in(f[2]) & opts if isinstance(f[2], ast.AST) else (pat is not None and pat.search(str(f[2]))))]
+        otext = {(f[2], f[1]) for f in ofacts}
+        sig = frozenset(x for x in ((norm(f[2]) if isinstance(f[2], ast.AST) else str(f[2]), f[1]) for f in st.facts) if x not in otext)
+        val = tuple((nm, norm(v) if isinstance(v, ast.AST) else repr(v)) for nm, v, _ in slots)
+        groups.setdefault(sig, []).append((val, ofacts))
+    for sig, members in groups.items():
+        vals = {v for v, _ in members}
+        of = sorted({f[2] for _, fs in members for f in fs})
+        if len(vals) > 1 and of:
+            lines = sorted({f[3][1] for _, fs in members for f in fs if isinstance(f[3], tuple)})
+            diff = sorted({a[0] for v in vals for w in vals for a, b in zip(v, w) if a != b}) if len({len(v) for v in vals}) == 1 else ["form slots"]
+            bad.append("%s of a reopened file differ(s) with the outcome of `%s`, a test on a caller option" % (", ".join(diff), "`, `".join(of)[:120]))
+            line = line or (lines[0] if lines else None)
+    verdict = False if bad else (True if nslots else None)
+    chk.ob("R03.3g", key, verdict, ("%s:%s" % (SFile_open.where().rsplit(":", 1)[0], line)) if line else SFile_open.where(),
+           "%swhen an existing file is reopened (header read from the file), the delimiter, dtype and row count kept on the handle and "
+           "passed to the record-file constructor are determined by the stored header alone, not by options of the call (%d reopen "
+           "path(s), %d form term(s), options %s)"
+           % (("; ".join(sorted(set(bad))[:3]) + " -- rule: ") if bad else "", len(reopen), nslots, sorted(opts)))
+
+
+# -- R03.3h: the header written to a new file describes the data by the writer's own word only ------------------------------------
+#
+# Abstract interpretation of the function that builds the header dict of a new file, for ONE entry name K (a spelling of a
+# reserved entry that this module itself stores, i.e. what a header read back from a record file contains) and EVERY user header:
+# the state of a dict variable is 'user' (the entry K of the user's header may still be in it), 'clean' (K is absent or was stored
+# by the writer) or 'unk'.  Loops over literal tables are unrolled with the loop variable bound to each constant, a loop over the
+# keys of the dict is followed for the iteration whose key is K, tests are decided by constant folding where their operands are
+# constants and forked otherwise (one decision per atom and path, so `is_text` tested twice is one choice).
+class _NoConst(Exception):
+    pass
+
+
+_KF_STR = ("lower", "upper", "strip", "lstrip", "rstrip", "casefold", "startswith", "endswith", "replace", "title", "swapcase",
+           "removeprefix", "removesuffix", "isupper", "islower")
+_KF_COPY_CALLS = ("dict", "OrderedDict", "deepcopy", "copy")
+_KF_KEYS_CALLS = ("list", "tuple", "sorted", "set", "frozenset", "iter", "reversed")
+_KF_RO = ("get", "keys", "items", "values", "copy", "__contains__", "__len__")
+
+
+class _KState:
+    __slots__ = ("d", "env", "sym", "dec")
+
+    def __init__(self, d=None, env=None, sym=None, dec=None):
+        self.d, self.env, self.sym, self.dec = d or {}, env or {}, sym or {}, dec or {}
+
+    def fork(self):
+        return _KState(dict(self.d), dict(self.env), dict(self.sym), dict(self.dec))
+
+
+class _KeyFate:
+    def __init__(self, repo, fi, K, budget=6000, depth=0):
+        self.repo, self.fi, self.K, self.depth = repo, fi, K, depth
+        self.budget = [budget] if isinstance(budget, int) else budget
+        self.exits = []         # (status of the returned dict, state)
+        self.consts = {}
+        for nm, v in _free_consts(fi).items():
+            try:
+                self.consts[nm] = ast.literal_eval(v)
+            except Exception:
+                pass
+        self.params = [p.lstrip("*") for p in fi.params if p != "self"]
+
+    # -- constants ----------------------------------------------------------------------------------------------------------
+    def keys_of(self, e, st):
+        """name of the tracked dict whose keys the expression enumerates"""
+        if isinstance(e, ast.Name) and e.id in st.d:
+            return e.id
+        if isinstance(e, ast.Call) and not e.keywords:
+            if isinstance(e.func, ast.Name) and e.func.id in _KF_KEYS_CALLS and len(e.args) == 1:
+                return self.keys_of(e.args[0], st)
+            if isinstance(e.func, ast.Attribute) and e.func.attr in ("keys", "copy") and not e.args:
+                return self.keys_of(e.func.value, st)
+        return None
+
+    def cev(self, e, st):
+        if isinstance(e, ast.Constant):
+            return e.value
+        if isinstance(e, ast.Name):
+            if e.id in st.env:
+                return st.env[e.id]
+            if e.id in self.consts and e.id not in st.d and e.id not in st.sym:
+                return self.consts[e.id]
+            raise _NoConst()
+        if isinstance(e, (ast.Tuple, ast.List)):
+            return tuple(self.cev(x, st) for x in e.elts)
+        if isinstance(e, ast.Set):
+            return frozenset(self.cev(x, st) for x in e.elts)
+        if isinstance(e, ast.Dict) and all(k is not None for k in e.keys):
+            return {self.cev(k, st): None for k in e.keys}        # only membership is ever asked
+        if isinstance(e, ast.UnaryOp) and isinstance(e.op, ast.Not):
+            return not self.cev(e.operand, st)
+        if isinstance(e, ast.BoolOp):
+            last = None
+            for x in e.values:
+                last = self.cev(x, st)
+                if bool(last) != isinstance(e.op, ast.And):
+                    return last
+            return last
+        if isinstance(e, ast.IfExp):
+            return self.cev(e.body if self.cev(e.test, st) else e.orelse, st)
+        if isinstance(e, ast.Subscript) and not isinstance(e.slice, ast.Slice):
+            try:
+                return self.cev(e.value, st)[self.cev(e.slice, st)]
+            except _NoConst:
+                raise
+            except Exception:
+                raise _NoConst()
+        if isinstance(e, ast.Compare) and len(e.ops) == 1:
+            op, l, r = e.ops[0], e.left, e.comparators[0]
+            if isinstance(op, (ast.In, ast.NotIn)):
+                dn = self.keys_of(r, st)
+                if dn is not None:
+                    if self.cev(l, st) == self.K and st.d[dn] == "user":
+                        return isinstance(op, ast.In)       # the case under study: the user's header has the entry K
+                    raise _NoConst()
+            f = _CMP.get(type(op))
+            if f is None:
+                raise _NoConst()
+            try:
+                return f(self.cev(l, st), self.cev(r, st))
+            except _NoConst:
+                raise
+            except Exception:
+                raise _NoConst()
+        if isinstance(e, ast.Call) and not e.keywords:
+            if isinstance(e.func, ast.Attribute) and e.func.attr in _KF_STR:
+                recv = self.cev(e.func.value, st)
+                if isinstance(recv, str):
+                    try:
+                        return getattr(recv, e.func.attr)(*[self.cev(a, st) for a in e.args])
+                    except _NoConst:
+                        raise
+                    except Exception:
+                        raise _NoConst()
+            if isinstance(e.func, ast.Name) and e.func.id in ("str", "len", "tuple", "list", "set", "frozenset", "sorted") and len(e.args) == 1:
+                v = self.cev(e.args[0], st)
+                try:
+                    return {"str": str, "len": len, "tuple": tuple, "list": tuple, "set": frozenset, "frozenset": frozenset,
+                            "sorted": lambda x: tuple(sorted(x))}[e.func.id](v)
+                except Exception:
+                    raise _NoConst()
+        raise _NoConst()
+
+    # -- tests --------------------------------------------------------------------------------------------------------------
+    def decide(self, e, st):
+        """[(outcome, state)]"""
+        self.budget[0] -= 1
+        if self.budget[0] < 0:
+            raise _TooBig()
+        if isinstance(e, ast.UnaryOp) and isinstance(e.op, ast.Not):
+            return [(not o, s) for o, s in self.decide(e.operand, st)]
+        if isinstance(e, ast.BoolOp):
+            is_and = isinstance(e.op, ast.And)
+            live, out = [st], []
+            for x in e.values:
+                nxt = []
+                for s in live:
+                    for o, s2 in self.decide(x, s):
+                        if o != is_and:
+                            out.append((o, s2))     # short circuit
+                        else:
+                            nxt.append(s2)
+                live = nxt
+            return out + [(is_and, s) for s in live]
+        try:
+            return [(bool(self.cev(e, st)), st)]
+        except _NoConst:
+            pass
+        if isinstance(e, ast.Name) and e.id in st.sym:
+            return self.decide(st.sym[e.id], st)
+        pol = True
+        if isinstance(e, ast.Compare) and len(e.ops) == 1 and isinstance(e.ops[0], (ast.IsNot, ast.NotEq, ast.NotIn)):
+            flip = {ast.IsNot: ast.Is, ast.NotEq: ast.Eq, ast.NotIn: ast.In}[type(e.ops[0])]
+            e = ast.Compare(left=e.left, ops=[flip()], comparators=e.comparators)
+            pol = False
+        known = {k: ast.Constant(value=v) for k, v in st.env.items() if isinstance(v, (str, int, bool, type(None)))}
+        known.update(st.sym)
+        key = norm(_Sub(known, {}).visit(copy.deepcopy(e)))
+        if key in st.dec:
+            return [(st.dec[key] == pol, st)]
+        if isinstance(e, ast.Compare) and isinstance(e.ops[0], ast.In) and self.keys_of(e.comparators[0], st) is not None:
+            # whether some OTHER entry is in the user's header: both ways, nothing to remember (the dict changes under the loop)
+            return [(True, st), (False, st)]
+        out = []
+        for o in (True, False):
+            s = st.fork()
+            s.dec[key] = o
+            out.append((o == pol, s))
+        return out
+
+    # -- values -------------------------------------------------------------------------------------------------------------
+    def mentions(self, e, st):
+        ns = _names_in(e)
+        return bool(ns & (set(st.d) | set(self.params)))
+
+    def origin(self, e, st):
+        """status of the dict an expression evaluates to, or None when it is not a dict we follow"""
+        if isinstance(e, ast.Name):
+            if e.id in st.d:
+                return st.d[e.id]
+            return None
+        if isinstance(e, ast.Dict):
+            if not e.keys:
+                return "clean"
+            st_ = "clean"
+            for k, v in zip(e.keys, e.values):
+                if k is None:
+                    o = self.origin(v, st) or ("user" if isinstance(v, ast.Name) and v.id in self.params else "unk")
+                    st_ = o if st_ == "clean" or o == "user" else st_
+                else:
+                    try:
+                        if self.cev(k, st) == self.K:
+                            st_ = "clean"
+                    except _NoConst:
+                        pass
+            return st_
+        if isinstance(e, ast.IfExp):
+            return "fork"
+        if isinstance(e, ast.Call):
+            f = e.func
+            nm = f.id if isinstance(f, ast.Name) else (f.attr if isinstance(f, ast.Attribute) else None)
+            if nm in ("dict", "OrderedDict") and not e.args and not e.keywords:
+                return "clean"
+            src = None
+            if nm in _KF_COPY_CALLS and len(e.args) == 1 and (isinstance(f, ast.Name) or nm in ("deepcopy", "copy") and
+                                                              isinstance(f.value, ast.Name) and f.value.id == "copy"):
+                src = e.args[0]
+            elif nm == "copy" and isinstance(f, ast.Attribute) and not e.args:
+                src = f.value
+            if src is not None:
+                o = self.origin(src, st)
+                if o is None and isinstance(src, ast.Name) and src.id in self.params:
+                    o = "user"
+                if o is None:
+                    return "unk" if self.mentions(src, st) else None
+                if any(k.arg == self.K for k in e.keywords):
+                    o = "clean"
+                elif any(k.arg is None for k in e.keywords) and o != "clean":
+                    o = "unk"
+                return o
+        if isinstance(e, ast.DictComp) and len(e.generators) == 1:
+            g = e.generators[0]
+            it, kv = g.iter, None
+            if isinstance(it, ast.Call) and isinstance(it.func, ast.Attribute) and it.func.attr == "items" and not it.args \
+                    and isinstance(g.target, (ast.Tuple, ast.List)) and len(g.target.elts) == 2 and isinstance(g.target.elts[0], ast.Name):
+                src, kv = it.func.value, g.target.elts[0].id
+            elif isinstance(g.target, ast.Name):
+                src, kv = it, g.target.id
+                if isinstance(src, ast.Call) and not (isinstance(src.func, ast.Attribute) and src.func.attr == "keys"
+                                                       or isinstance(src.func, ast.Name) and src.func.id in _KF_KEYS_CALLS):
+                    return "unk" if self.mentions(e, st) else None
+                while isinstance(src, ast.Call):
+                    src = src.func.value if isinstance(src.func, ast.Attribute) else (src.args[0] if len(src.args) == 1 else ast.Constant(value=None))
+            else:
+                return "unk" if self.mentions(e, st) else None
+            o = self.origin(src, st)
+            if o is None and isinstance(src, ast.Name) and src.id in self.params:
+                o = "user"
+            if o is None:
+                return "unk" if self.mentions(e, st) else None
+            if o != "user":
+                return o
+            if not (isinstance(e.key, ast.Name) and e.key.id == kv):
+                return "unk"
+            s = st.fork()
+            s.env[kv] = self.K
+            try:
+                keep = all(bool(self.cev(c, s)) for c in g.ifs)
+            except _NoConst:
+                return "unk"
+            return "user" if keep else "clean"
+        return "unk" if self.mentions(e, st) else None
+
+    # -- helper calls -------------------------------------------------------------------------------------------------------
+    def helper(self, call, st):
+        """(status of the value the call returns, {argument name: status after the call}) or None when the callee is not followed"""
+        if self.depth >= 3:
+            return None
+        callee = _PX(self.repo).resolve(self.fi, call)
+        if callee is None or rules.is_generator(callee.node) or any(isinstance(a, ast.Starred) for a in call.args) \
+                or any(k.arg is None for k in call.keywords):
+            return None
+        ps = [p for p in callee.params if not p.startswith("*")]
+        if callee.cls and ps and isinstance(call.func, ast.Attribute):
+            ps = ps[1:]
+        bound = dict(zip(ps, call.args))
+        bound.update({k.arg: k.value for k in call.keywords if k.arg in ps})
+        sub = _KeyFate(self.repo, callee, self.K, self.budget, self.depth + 1)
+        s0 = _KState()
+        back = {}
+        for p, a in bound.items():
+            o = self.origin(a, st)
+            if o is None and isinstance(a, ast.Name) and a.id in self.params:
+                o = "user"
+            if o == "fork":
+                return None
+            if o is not None:
+                s0.d[p] = o
+                if isinstance(a, ast.Name) and a.id in st.d:
+                    back[p] = a.id
+            else:
+                try:
+                    s0.env[p] = self.cev(a, st)
+                except _NoConst:
+                    pass
+        if not s0.d:
+            return None
+        rebinds = {t.id for x in ast.walk(callee.node) if isinstance(x, (ast.Assign, ast.AugAssign, ast.AnnAssign, ast.For))
+                   for t in ast.walk(x.targets[0] if isinstance(x, ast.Assign) else x.target)
+                   if isinstance(t, ast.Name)}
+        sub.run(s0)
+        if not sub.exits:
+            return None
+        rets = {r for r, _ in sub.exits}
+        ret = _kjoin(rets)
+        after = {}
+        for p, a in back.items():
+            after[a] = "unk" if p in rebinds else _kjoin({s.d.get(p, "unk") for _, s in sub.exits})
+        return ret, after
+
+    # -- statements ---------------------------------------------------------------------------------------------------------
+    def run(self, st=None):
+        st = st or _KState()
+        for s, flow in self.block(self.fi.node.body, [st]):
+            if flow is None:
+                self.exits.append((None, s))
+        return self.exits
+
+    def block(self, stmts, states):
+        """[(state, flow)] flow None | 'break' | 'continue' (returns are recorded, raises dropped)"""
+        live, done = list(states), []
+        for a in stmts:
+            nxt = []
+            for s in live:
+                for s2, flow in self.step(a, s):
+                    (nxt if flow is None else done).append((s2, flow))
+            live, sigs = [], set()
+            for s, _ in nxt:
+                sig = (tuple(sorted(s.d.items())), repr(sorted(s.env.items(), key=lambda kv: kv[0])), tuple(sorted(s.dec.items())),
+                       tuple(sorted((k, norm(v)) for k, v in s.sym.items())))
+                if sig not in sigs:
+                    sigs.add(sig)
+                    live.append(s)
+            if not live:
+                break
+        return [(s, None) for s in live] + done
+
+    def kill(self, node, st):
+        for n in _names_in(node) & set(st.d):
+            st.d[n] = "unk" if st.d[n] != "clean" or True else st.d[n]
+
+    def bind(self, t, st, val=_NoConst):
+        for x in ast.walk(t):
+            if isinstance(x, ast.Name):
+                st.env.pop(x.id, None)
+                st.sym.pop(x.id, None)
+                st.d.pop(x.id, None)
+        if val is not _NoConst:
+            if isinstance(t, ast.Name):
+                st.env[t.id] = val
+            elif isinstance(t, (ast.Tuple, ast.List)) and isinstance(val, tuple) and len(val) == len(t.elts):
+                for tt, v in zip(t.elts, val):
+                    if isinstance(tt, ast.Name):
+                        st.env[tt.id] = v
+
+    def remove(self, dn, keyexpr, st):
+        try:
+            if self.cev(keyexpr, st) == self.K:
+                st.d[dn] = "clean"
+        except _NoConst:
+            if st.d[dn] == "user":
+                st.d[dn] = "unk"
+
+    def call_effect(self, c, st):
+        """effect of evaluating the call `c` (an expression statement, or the right-hand side of an assignment) on the dicts"""
+        f = c.func
+        if isinstance(f, ast.Attribute) and isinstance(f.value, ast.Name) and f.value.id in st.d:
+            dn, m = f.value.id, f.attr
+            if m in ("pop",) and c.args:
+                self.remove(dn, c.args[0], st)
+            elif m == "clear":
+                st.d[dn] = "clean"
+            elif m == "update":
+                if any(k.arg == self.K for k in c.keywords):
+                    st.d[dn] = "clean"
+                for a in c.args:
+                    o = self.origin(a, st)
+                    if o is None and isinstance(a, ast.Name) and a.id in self.params:
+                        o = "user"
+                    if o == "user":
+                        st.d[dn] = "user"
+                    elif o in ("unk", "fork") and st.d[dn] == "clean":
+                        st.d[dn] = "unk"
+            elif m == "setdefault" or m in _KF_RO:
+                pass
+            else:
+                st.d[dn] = "unk"
+            return None
+        if any(isinstance(a, ast.Name) and a.id in st.d for a in list(c.args) + [k.value for k in c.keywords]):
+            res = self.helper(c, st)
+            if res is None:
+                for a in list(c.args) + [k.value for k in c.keywords]:
+                    if isinstance(a, ast.Name) and a.id in st.d and not (isinstance(f, ast.Name) and f.id in _KF_COPY_CALLS + _KF_KEYS_CALLS + ("len", "print", "isinstance", "repr", "str", "bool"))\
+                            and not (isinstance(f, ast.Attribute) and f.attr in ("pformat", "deepcopy", "copy", "dumps", "debug", "info")):
+                        st.d[a.id] = "unk"
+                return None
+            ret, after = res
+            st.d.update(after)
+            return ret
+        return None
+
+    def step(self, a, st):
+        self.budget[0] -= 1
+        if self.budget[0] < 0:
+            raise _TooBig()
+        st = st.fork()
+        if isinstance(a, (ast.Assign, ast.AnnAssign)):
+            if a.value is None:
+                return [(st, None)]
+            targets = a.targets if isinstance(a, ast.Assign) else [a.target]
+            if len(targets) == 1 and isinstance(targets[0], ast.Name):
+                nm = targets[0].id
+                o = self.origin(a.value, st)
+                if o == "fork":
+                    out = []
+                    for oc, s in self.decide(a.value.test, st):
+                        arm = a.value.body if oc else a.value.orelse
+                        out.extend(self.step(ast.Assign(targets=targets, value=arm), s))
+                    return out
+                if isinstance(a.value, ast.Call) and (o in (None, "unk")):
+                    r = self.call_effect(a.value, st)
+                    if r is not None:
+                        o = r
+                if o is None and isinstance(a.value, ast.Name) and a.value.id in self.params and any(
+                        isinstance(x, (ast.Subscript, ast.Attribute)) and isinstance(x.value, ast.Name) and x.value.id == nm
+                        for x in ast.walk(self.fi.node)):
+                    o = "user"          # an alias of the user's header that is then used as the dict
+                self.bind(targets[0], st)
+                if o is not None:
+                    st.d[nm] = o
+                else:
+                    try:
+                        st.env[nm] = self.cev(a.value, st)
+                    except _NoConst:
+                        if not any(isinstance(x, (ast.Call, ast.Lambda) + _COMPS) for x in ast.walk(a.value)) or isinstance(a.value, (ast.Compare, ast.BoolOp, ast.UnaryOp)):
+                            st.sym[nm] = _Sub(dict(st.sym), {}).visit(copy.deepcopy(a.value))
+                return [(st, None)]
+            for t in targets:
+                if isinstance(t, ast.Subscript) and isinstance(t.value, ast.Name) and t.value.id in st.d:
+                    try:
+                        if self.cev(t.slice, st) == self.K:
+                            st.d[t.value.id] = "clean"
+                    except _NoConst:
+                        pass
+                else:
+                    self.bind(t, st)
+            return [(st, None)]
+        if isinstance(a, ast.AugAssign):
+            self.bind(a.target, st) if isinstance(a.target, ast.Name) else None
+            return [(st, None)]
+        if isinstance(a, ast.Delete):
+            for t in a.targets:
+                if isinstance(t, ast.Subscript) and isinstance(t.value, ast.Name) and t.value.id in st.d:
+                    self.remove(t.value.id, t.slice, st)
+                elif isinstance(t, ast.Name):
+                    self.bind(t, st)
+            return [(st, None)]
+        if isinstance(a, ast.Expr):
+            if isinstance(a.value, ast.Call):
+                self.call_effect(a.value, st)
+            return [(st, None)]
+        if isinstance(a, ast.If):
+            out = []
+            for oc, s in self.decide(a.test, st):
+                out.extend(self.block(a.body if oc else a.orelse, [s]))
+            return out
+        if isinstance(a, ast.For):
+            return self.loop(a, st)
+        if isinstance(a, ast.While):
+            self.kill(a, st)
+            return [(st, None)]
+        if isinstance(a, ast.Return):
+            if a.value is None:
+                self.exits.append((None, st))
+            else:
+                o = self.origin(a.value, st)
+                if o == "fork":
+                    for oc, s in self.decide(a.value.test, st):
+                        self.step(ast.Return(value=a.value.body if oc else a.value.orelse), s)
+                else:
+                    self.exits.append((o, st))
+            return []
+        if isinstance(a, ast.Raise):
+            return []
+        if isinstance(a, (ast.Break, ast.Continue)):
+            return [(st, "break" if isinstance(a, ast.Break) else "continue")]
+        if isinstance(a, ast.With):
+            for it in a.items:
+                if it.optional_vars is not None:
+                    self.bind(it.optional_vars, st)
+            return self.block(a.body, [st])
+        if isinstance(a, ast.Try):
+            out = self.block(a.body, [st])
+            res = []
+            for s, flow in out:
+                if flow is None and a.orelse:
+                    res.extend(self.block(a.orelse, [s]))
+                else:
+                    res.append((s, flow))
+            for h in a.handlers:
+                s = st.fork()
+                self.kill(ast.Module(body=a.body, type_ignores=[]), s)
+                if h.name:
+                    s.env.pop(h.name, None)
+                res.extend(self.block(h.body, [s]))
+            if a.finalbody:
+                fin = []
+                for s, flow in res:
+                    for s2, f2 in self.block(a.finalbody, [s]):
+                        fin.append((s2, f2 or flow))
+                res = fin
+            return res
+        if isinstance(a, (ast.FunctionDef, ast.AsyncFunctionDef, ast.ClassDef)):
+            if _names_in(a) & set(st.d):
+                self.kill(a, st)
+            return [(st, None)]
+        return [(st, None)]
+
+    def loop(self, a, st):
+        def iterate(values, s0):
+            live, out = [s0], []
+            for v in values:
+                nxt = []
+                for s in live:
+                    s = s.fork()
+                    self.bind(a.target, s, v)
+                    for s2, flow in self.block(a.body, [s]):
+                        if flow == "break":
+                            out.append((s2, None))
+                        else:
+                            nxt.append(s2)
+                live = nxt
+            res = list(out)
+            for s in live:
+                res.extend(self.block(a.orelse, [s]) if a.orelse else [(s, None)])
+            return res
+
+        it = a.iter
+        dn = self.keys_of(it, st)
+        pair = False
+        if dn is None and isinstance(it, ast.Call) and isinstance(it.func, ast.Attribute) and it.func.attr == "items" and not it.args:
+            dn = self.keys_of(it.func.value, st)
+            pair = dn is not None
+        if dn is None and isinstance(it, ast.Call) and isinstance(it.func, ast.Name) and it.func.id in _KF_KEYS_CALLS and len(it.args) == 1 \
+                and isinstance(it.args[0], ast.Call) and isinstance(it.args[0].func, ast.Attribute) and it.args[0].func.attr == "items":
+            dn = self.keys_of(it.args[0].func.value, st)
+            pair = dn is not None
+        if dn is not None:
+            if st.d[dn] != "user":
+                s = st.fork()
+                self.bind(a.target, s)
+                res = self.block(a.body, [s])
+                return [(st, None)] + [(s2, None if f in ("break", "continue") else f) for s2, f in res]
+            # the iteration whose key is K (it exists: the header under study has the entry)
+            if pair:
+                if not (isinstance(a.target, (ast.Tuple, ast.List)) and len(a.target.elts) == 2 and isinstance(a.target.elts[0], ast.Name)):
+                    self.kill(a, st)
+                    return [(st, None)]
+                s = st.fork()
+                self.bind(a.target, s)
+                s.env[a.target.elts[0].id] = self.K
+                res = self.block(a.body, [s])
+                return [(s2, None if f in ("break", "continue") else f) for s2, f in res]
+            return iterate([self.K], st)
+        try:
+            vals = self.cev(it, st)
+            if isinstance(vals, dict):
+                vals = tuple(vals)
+            if not isinstance(vals, (tuple, frozenset, str)) or len(vals) > 64:
+                raise _NoConst()
+            return iterate(sorted(vals, key=repr) if isinstance(vals, frozenset) else list(vals), st)
+        except _NoConst:
+            pass
+        s = st.fork()
+        self.bind(a.target, s)
+        res = self.block(a.body, [s])
+        return [(st, None)] + [(s2, None if f in ("break", "continue") else f) for s2, f in res]
+
+
+def _kjoin(vals):
+    vals = set(vals)
+    if "user" in vals:
+        return "user"
+    if vals == {"clean"}:
+        return "clean"
+    return "unk"
+
+
+def _reserved_spellings(repo, modname):
+    """{spelling: [where]} of the reserved entries this module itself stores into a dict (`d['_DELIM'] = ...`): what a header that
+    was read from a record file contains"""
+    out = {}
+    for q, f in repo.funcs.items():
+        if f.module.name != modname:
+            continue
+        for x in ast.walk(f.node):
+            if isinstance(x, ast.Subscript) and isinstance(x.ctx, ast.Store) and isinstance(x.slice, ast.Constant) \
+                    and isinstance(x.slice.value, str) and x.slice.value.lower() in _RESERVED_ENTRIES:
+                out.setdefault(x.slice.value, []).append((f, x))
+    return out
+
+
+def _stores_unconditionally(f, K):
+    return any(isinstance(s, ast.Assign) and any(isinstance(t, ast.Subscript) and isinstance(t.slice, ast.Constant) and t.slice.value == K
+                                                for t in s.targets) for s in f.node.body)
+
+
+def r03_3h(chk, repo, SFile_write, SFile_open):
+    """new file: every reserved entry of the written header is the writer's (set from the handle's own state) or absent; none is
+    inherited from the user's header (which may be a header read from another record file, of the other form)"""
+    mod = SFile_write.module.name
+    spell = _reserved_spellings(repo, mod)
+    # the functions between SFile.write and the header text: reachable through self.* / module calls
+    seen, work = {}, [SFile_write]
+    while work:
+        f = work.pop()
+        if f.qualname in seen or len(seen) > 40:
+            continue
+        seen[f.qualname] = f
+        for c in ast.walk(f.node):
+            if isinstance(c, ast.Call):
+                g = _PX(repo).resolve(f, c)
+                if g is not None:
+                    work.append(g)
+    builders = []
+    for f in seen.values():
+        user_params = [p for p in f.params if p != "self"]
+        if not user_params:
+            continue
+        stored = {x.value.id for x in ast.walk(f.node) if isinstance(x, ast.Subscript) and isinstance(x.ctx, ast.Store)
+                  and isinstance(x.value, ast.Name) and isinstance(x.slice, ast.Constant) and isinstance(x.slice.value, str)
+                  and x.slice.value.lower() in _RESERVED_ENTRIES}
+        returned = {x.value.id for x in ast.walk(f.node) if isinstance(x, ast.Return) and isinstance(x.value, ast.Name)}
+        if stored & returned:
+            builders.append(f)
+    reader = repo.funcs.get("%s.%s.read_header" % (mod, SFile_open.cls)) if SFile_open.cls else None
+    if not builders or not spell:
+        chk.ob("R03.3h", "esutil.sfile.SFile::written-header-reserved-entries-are-the-writers", None, SFile_write.where(),
+               "no function below SFile.write was recognised that builds the header dict of a new file (stores a reserved entry "
+               "into a dict and returns it)")
+        return
+    for f in builders:
+        for K in sorted(spell):
+            if reader is not None and _stores_unconditionally(reader, K):
+                continue        # whatever the stored dict says, the reader replaces this entry (SIZE line)
+            try:
+                kf = _KeyFate(repo, f, K)
+                exits = [(o, s) for o, s in kf.run() if o is not None]
+            except (_TooBig, RecursionError):
+                exits = []
+            got = {o for o, _ in exits}
+            bad = [s for o, s in exits if o == "user"]
+            verdict = False if bad else (True if got == {"clean"} else None)
+            why = ""
+            if bad:
+                conds = sorted("%s is %s" % (k, v) for k, v in bad[0].dec.items())
+                why = "the entry %r of the user's header survives into the returned dict%s -- rule: " \
+                      % (K, (" when " + " and ".join(conds)[:160]) if conds else "")
+            chk.ob("R03.3h", "%s::written-header-entry-is-the-writers::%s" % (f.qualname, K), verdict, f.where(),
+                   "%sthe header dict built for a new file carries the reserved entry %r only as the writer sets it from the handle's own "
+                   "state: on every path an entry of that name in the user's header (e.g. a header read from another record file) is "
+                   "removed or overwritten, so the file never describes itself by another file's %s (%d return path(s): %s)"
+                   % (why, K, K.strip("_").lower(), len(exits), sorted(map(str, got))))
 
 
 # ---------------------------------------------------------------------------
